@@ -1,5 +1,5 @@
 """C02 - value is conserved (DESIGN 5/C02)."""
-from . import core_rules
+from . import backtest_rules, core_rules
 
 
 def run(chk):
@@ -15,3 +15,4 @@ def run(chk):
     core_rules.coupon_accrual(chk, "C02")
     core_rules.ownership_rules(chk, "C02", roles=("CAPITAL", "POSITION"))
     core_rules.refresh_before_trade(chk, "C02")
+    backtest_rules.run_loop(chk, "C02")
